@@ -150,16 +150,19 @@ Section GlueProofs.
     - unfold search_file_m. rewrite Hml. exact (Hrd s h Hok).
   Qed.
 
-  (* a configuration error is returned before anything is touched — except by the multi-line branch
-     of search_file, which does not check *)
-  Lemma search_cfgerr_state_free reply_of st1 st2 src : check_config cfg M = false ->
-    fst (search reply_of st1 src) = fst (search reply_of st2 src).
+  (* a configuration error is returned by every entry point before anything is touched *)
+  Lemma search_cfgerr reply_of st src : check_config cfg M = false ->
+    search reply_of st src = (RunErr [], st).
   Proof.
     intro Hcc.
     destruct src as [s|s h|[|] s h]; cbn [search];
-      unfold search_file_m, search_slice_m, search_reader_m; rewrite ?Hcc; cbn [negb fst]; try reflexivity.
+      unfold search_file_m, search_slice_m, search_reader_m; rewrite ?Hcc; cbn [negb]; try reflexivity.
     destruct (multi_line_with_matcher cfg M); reflexivity.
   Qed.
+
+  Lemma search_cfgerr_state_free reply_of st1 st2 src : check_config cfg M = false ->
+    fst (search reply_of st1 src) = fst (search reply_of st2 src).
+  Proof. intro Hcc. now rewrite !search_cfgerr by exact Hcc. Qed.
 
   (* (b) no state leaks: whatever state earlier searches left the Searcher in, the next search
      delivers the same events; the very same result when it is not cut short *)
@@ -210,9 +213,9 @@ Section GlueProofs.
     (g_stopped (gfin (searched src)) = false -> fst (search K st src) = fst (search K (ss_new cap) src)).
   Proof. intros _ Hok. exact (search_state_independent_proof st (ss_new cap) src Hok). Qed.
 
-  (* (c) slice, reader and file (memory-mapped or not) of the same input: the same events, provided the
-     configuration check passes (the multi-line branch of search_file does not run it) and the
-     transcoder leaves alone what search_slice searches untranscoded *)
+  (* (c) slice, reader and file (memory-mapped or not) of the same input: the same events (the same
+     configuration error, if any), provided the transcoder leaves alone what search_slice searches
+     untranscoded *)
   Lemma searched_decode src : (needs (src_input src) = false -> decode (src_input src) = src_input src) ->
     searched src = decode (src_input src).
   Proof.
@@ -221,12 +224,14 @@ Section GlueProofs.
   Qed.
 
   Theorem strategy_independent_events_proof st1 st2 src1 src2 :
-    src_input src1 = src_input src2 -> src_ok src1 -> src_ok src2 -> check_config cfg M = true ->
+    src_input src1 = src_input src2 -> src_ok src1 -> src_ok src2 ->
     (needs (src_input src1) = false -> decode (src_input src1) = src_input src1) ->
     res_sim (fst (search K st1 src1)) (fst (search K st2 src2)) /\
     (g_stopped (gfin (decode (src_input src1))) = false -> fst (search K st1 src1) = fst (search K st2 src2)).
   Proof.
-    intros Hin Hok1 Hok2 Hcc Hdec.
+    intros Hin Hok1 Hok2 Hdec.
+    destruct (check_config cfg M) eqn:Hcc.
+    2:{ rewrite !search_cfgerr by exact Hcc. split; [apply res_sim_refl|reflexivity]. }
     pose proof (searched_decode src1 Hdec) as E1.
     assert (E2 : searched src2 = decode (src_input src1)).
     { rewrite Hin. apply searched_decode. rewrite <- Hin. exact Hdec. }
